@@ -182,22 +182,51 @@ def init_behaviour(protocol, service):
     return own_copy, equals_defaults, overlaid, untouched
 
 
+class _WriteRecordingDict(dict):
+    """a `_config` that records which keys are written (by item assignment or update)"""
+    def __init__(self, *a, **k):
+        dict.__init__(self, *a, **k)
+        self.written = {}
+
+    def __setitem__(self, k, v):
+        self.written[k] = v
+        dict.__setitem__(self, k, v)
+
+    def update(self, *a, **k):
+        d = dict(*a, **k)
+        self.written.update(d)
+        dict.update(self, d)
+
+    def setdefault(self, k, d=None):
+        if k not in self:
+            self.written[k] = d
+        return dict.setdefault(self, k, d)
+
+
 class _RecordingConn(object):
-    """stand-in for a Connection: on_connect writes into ._config"""
-    def __init__(self):
-        self._config = {}
+    """stand-in for a Connection: `_config` is a shallow copy of the defaults (as in Connection.__init__)"""
+    def __init__(self, defaults):
+        self._config = _WriteRecordingDict(defaults)
 
 
 def slave_update(protocol, service):
     before = copy.deepcopy(protocol.DEFAULT_CONFIG)
-    conn = _RecordingConn()
+    conn = _RecordingConn(protocol.DEFAULT_CONFIG)
     svc = service.SlaveService()
-    svc.on_connect(conn)
-    unchanged = protocol.DEFAULT_CONFIG == before
+    try:
+        svc.on_connect(conn)
+        unchanged = protocol.DEFAULT_CONFIG == before
+    finally:
+        if protocol.DEFAULT_CONFIG != before:          # do not let a leaking on_connect distort the other constants
+            protocol.DEFAULT_CONFIG.clear()
+            protocol.DEFAULT_CONFIG.update(before)
     extra = sorted(k for k in vars(conn) if k != "_config")
     if extra:
         raise Inexpressible("SlaveService.on_connect sets attributes on the connection: %s" % extra)
-    return dict(conn._config), unchanged
+    for k in conn._config:
+        if k not in conn._config.written and conn._config[k] != before.get(k):
+            unchanged = False                          # a value changed in place (e.g. the shared safe_attrs set)
+    return dict(conn._config.written), unchanged
 
 
 def hooks_of(cls):
